@@ -35,7 +35,8 @@ def check(run):
         race_rejection(run, "atomicvalue-stress", rp)
     # large free-running workloads with linear-time necessary conditions (swap chains, CAS increments)
     cnt = run_driver(run, "atomicvalue-count", [dict(kind="swapchain", threads=8, ops=250, rounds=20 if q else 300),
-                                                dict(kind="casinc", threads=8, ops=2000, rounds=20 if q else 300)])
+                                                dict(kind="casinc", threads=8, ops=2000, rounds=20 if q else 300),
+                                                dict(kind="eqstore", threads=4, ops=20000, rounds=10 if q else 100)])
     hist = hist + [[dict(ev="reset", ty="int"), e] for e in cnt]
     validate(run, "atomics", "RegisterAbsTrace", dict(NT=6), seq + hist, [], plans=None, label="register")
     # ---- Pool: free-running goroutines with unique tokens ----
